@@ -1,5 +1,371 @@
 package main
 
-func mutMatrix(args []string) {}
-func mutRandom(args []string) {}
-func mutExec(args []string)   {}
+// C13: path mutations. Behaviours {init, hist: [call...]} come from TLC (spec/JsonPathStore.tla, exhaustive
+// one-step menu and -simulate behaviours of three steps), from the fragment matrix below and from a seeded
+// random generator; mutexec replays each on simple and on gen data, projecting the document after every step.
+// The trace (one line per step) is judged by spec/TraceJsonPathStore.tla.
+
+import (
+	"bufio"
+	"encoding/json"
+	"flag"
+	"fmt"
+	"math/rand"
+	"os"
+
+	"github.com/ohler55/ojg/jp"
+
+	jl "verif/harness/jplib"
+)
+
+type Call struct {
+	Op   string    `json:"op"`
+	Path []jl.Frag `json:"path"`
+	V    jl.Node   `json:"v,omitempty"`
+	Md   jl.Node   `json:"md,omitempty"` // {"m": "const"|"wrap"|"same", "v": node}
+}
+
+type Beh struct {
+	ID   int     `json:"id"`
+	Src  string  `json:"src"`
+	Fx   int     `json:"fx"`
+	Init jl.Node `json:"init"`
+	Hist []Call  `json:"hist"`
+}
+
+type stepObs struct {
+	As     []string `json:"as"`
+	Before jl.Node  `json:"before"`
+	R      string   `json:"r"` // ok err panic
+	After  jl.Node  `json:"after"`
+	Msg    string   `json:"msg"`
+}
+
+type stepLine struct {
+	B   int       `json:"b"`
+	K   int       `json:"k"`
+	Src string    `json:"src"`
+	Fx  int       `json:"fx"`
+	M   Call      `json:"m"`
+	PS  string    `json:"ps"`
+	O   []stepObs `json:"o"`
+}
+
+var allOps = []string{"Set", "SetOne", "Del", "DelOne", "Remove", "RemoveOne", "Modify", "ModifyOne"}
+
+func modConst() jl.Node { return jl.Node{"m": "const", "v": jl.Int(99)} }
+func modWrap() jl.Node  { return jl.Node{"m": "wrap"} }
+func modSame() jl.Node  { return jl.Node{"m": "same"} }
+
+// calls builds the calls of one path for the given operations (every argument of the small menus).
+func calls(path []jl.Frag, ops []string, rich bool) []Call {
+	out := []Call{}
+	for _, op := range ops {
+		switch op {
+		case "Set", "SetOne":
+			out = append(out, Call{Op: op, Path: path, V: jl.Int(99)})
+			if rich {
+				out = append(out, Call{Op: op, Path: path, V: jl.Arr(jl.Int(98))})
+			}
+		case "Modify", "ModifyOne":
+			out = append(out, Call{Op: op, Path: path, Md: modConst()})
+			if rich {
+				out = append(out, Call{Op: op, Path: path, Md: modWrap()}, Call{Op: op, Path: path, Md: modSame()})
+			}
+		default:
+			out = append(out, Call{Op: op, Path: path})
+		}
+	}
+	return out
+}
+
+func mutMatrix(args []string) {
+	fs := flag.NewFlagSet("mutmatrix", flag.ExitOnError)
+	full := fs.Bool("full", false, "thorough parameter sets")
+	fs.Parse(args)
+	out := bufio.NewWriterSize(os.Stdout, 1<<20)
+	defer out.Flush()
+	id := 0
+	emit := func(fx int, init jl.Node, c Call) {
+		id++
+		b, _ := json.Marshal(Beh{ID: id, Src: "matrix", Fx: fx, Init: init, Hist: []Call{c}})
+		out.Write(b)
+		out.WriteByte('\n')
+	}
+	A := jl.Absent
+	bounds := []int{-5, -1, 0, 1, 2, 5, A}
+	steps := []int{-2, -1, 0, 1, 2, A}
+	lens := []int{0, 1, 4}
+	if *full {
+		bounds = []int{-6, -5, -4, -3, -2, -1, 0, 1, 2, 3, 4, 5, 6, A}
+		steps = []int{-3, -2, -1, 0, 1, 2, 3, A}
+		lens = []int{0, 1, 2, 3, 4, 5}
+	}
+	lastOps := []string{"Remove", "RemoveOne", "Modify", "ModifyOne"}
+	innerOps := []string{"Set", "Del", "Remove", "Modify", "SetOne", "RemoveOne"}
+	followers := []follower{{jl.FChild("a"), "obj"}, {jl.FNth(0), "arr"}}
+	v := 0
+	place := func(focus jl.Frag, ct cont, lastOps, innerOps []string, rich bool) {
+		v++
+		c := &ctr{n: 100}
+		d := mkCont(ct, "mixed", c)
+		if focus["f"] == "slice" {
+			d = mkCont(ct, "scalar", c)
+		}
+		for _, cl := range calls([]jl.Frag{jl.FRoot(), focus}, lastOps, rich) {
+			emit(2, d, cl)
+		}
+		if v%2 == 0 {
+			for _, cl := range calls([]jl.Frag{jl.FRoot(), jl.FChild("p"), focus}, lastOps, false) {
+				emit(3, jl.Obj("p", d, "q", jl.Int(9999)), cl)
+			}
+		} else {
+			for _, cl := range calls([]jl.Frag{jl.FRoot(), jl.FNth(1), focus}, lastOps, false) {
+				emit(3, jl.Arr(jl.Int(77), d), cl)
+			}
+		}
+		for _, fo := range followers {
+			d := mkCont(ct, fo.shape, c)
+			for _, cl := range calls([]jl.Frag{jl.FRoot(), focus, fo.f}, innerOps, false) {
+				emit(2, d, cl)
+			}
+		}
+	}
+	conts := []cont{}
+	for _, n := range lens {
+		conts = append(conts, cont{"arr", n})
+	}
+	all := append(append([]cont{}, conts...), cont{"obj", 0}, cont{"obj", 3}, cont{"scalar", 0}, cont{"null", 0})
+	for _, s := range bounds {
+		for _, e := range bounds {
+			for _, st := range steps {
+				for _, ct := range conts {
+					place(jl.FSlice(s, e, st), ct, lastOps, innerOps, false)
+				}
+			}
+		}
+	}
+	for _, ct := range all {
+		place(jl.FSlice(1, A, A), ct, allOps, allOps, true)
+		for i := -5; i <= 5; i++ {
+			place(jl.FNth(i), ct, allOps, allOps, i == 0 || i == -1)
+		}
+		for _, k := range []string{"a", "b", "zz"} {
+			place(jl.FChild(k), ct, allOps, allOps, k == "a")
+		}
+		place(jl.FWild(), ct, allOps, allOps, true)
+		place(jl.FDesc(), ct, allOps, []string{"Set", "Del", "Remove", "Modify"}, false)
+		for _, u := range [][]any{{0}, {0, 1}, {1, 0}, {-1, 0}, {0, 0}, {3, 1, 2}, {7, 0}, {"a"}, {"a", "b"}, {"b", "a"}, {"a", "a"}, {"zz", "a"}, {"a", 0}, {0, "a", 1}} {
+			place(jl.FUnion(u...), ct, allOps, allOps, false)
+		}
+		for _, f := range []jl.Frag{jl.FFilter("gtk", "a", jl.Int(10)), jl.FFilter("exk", "a", jl.Null()), jl.FFilter("eqk", "b", jl.Str("s0")),
+			jl.FFilter("gts", "", jl.Int(50)), jl.FFilter("gts", "", jl.Int(0)), jl.FFilter("eqs", "", jl.Int(51))} {
+			place(f, ct, allOps, allOps, false)
+		}
+	}
+	// creation along child/index paths, and requests that cannot be served
+	c := &ctr{n: 100}
+	docs := []jl.Node{jl.Obj(), jl.Arr(), jl.Obj("a", jl.Obj("b", jl.Int(1))), jl.Obj("a", jl.Arr(c.next(), c.next())), jl.Obj("a", jl.Int(5)),
+		jl.Arr(jl.Obj("a", jl.Int(1)), jl.Int(2), jl.Arr(c.next())), jl.Null(), jl.Int(3)}
+	paths := [][]jl.Frag{
+		{jl.FRoot(), jl.FChild("x")}, {jl.FRoot(), jl.FChild("a"), jl.FChild("b")}, {jl.FRoot(), jl.FChild("x"), jl.FChild("y")},
+		{jl.FRoot(), jl.FChild("x"), jl.FNth(2)}, {jl.FRoot(), jl.FChild("x"), jl.FNth(-1)}, {jl.FRoot(), jl.FChild("a"), jl.FNth(5)},
+		{jl.FRoot(), jl.FChild("a"), jl.FNth(1)}, {jl.FRoot(), jl.FChild("a"), jl.FChild("b"), jl.FChild("c")},
+		{jl.FRoot(), jl.FChild("x"), jl.FWild()}, {jl.FRoot(), jl.FChild("x"), jl.FNth(1), jl.FChild("y")}, {jl.FRoot(), jl.FNth(0), jl.FChild("z")},
+		{jl.FRoot(), jl.FNth(3)}, {jl.FRoot(), jl.FNth(1), jl.FChild("a")}, {jl.FRoot()}, {jl.FChild("x")}, {jl.FAt(), jl.FChild("a")},
+		{jl.FRoot(), jl.FWild(), jl.FChild("n")}, {jl.FRoot(), jl.FChild("x"), jl.FUnion("p", "q")}, {jl.FRoot(), jl.FUnion("x", "y"), jl.FChild("z")},
+		{}, {jl.FRoot(), jl.FChild("a"), jl.FDesc()}, {jl.FRoot(), jl.FChild("a"), jl.FSlice(0, 1, A)}, {jl.FRoot(), jl.FChild("a"), jl.FFilter("gts", "", jl.Int(0))},
+	}
+	for _, d := range docs {
+		for _, p := range paths {
+			for _, cl := range calls(p, allOps, true) {
+				emit(0, d, cl)
+			}
+		}
+	}
+}
+
+func mutRandom(args []string) {
+	fs := flag.NewFlagSet("mutrandom", flag.ExitOnError)
+	n := fs.Int("n", 1000, "number of behaviours")
+	fs.Parse(args)
+	out := bufio.NewWriterSize(os.Stdout, 1<<20)
+	defer out.Flush()
+	r := rand.New(rand.NewSource(seed()*104729 + 7))
+	for id := 1; id <= *n; id++ {
+		g := &rgen{r: r, c: ctr{n: 0}}
+		data := g.tree(2 + r.Intn(2))
+		b := Beh{ID: id, Src: "random", Init: data}
+		for k := 1 + r.Intn(3); k > 0; k-- {
+			path := []jl.Frag{jl.FRoot()}
+			cur := data
+			for i := 1 + r.Intn(3); i > 0; i-- {
+				f, next := g.frag(false, cur)
+				path = append(path, f)
+				cur = next
+			}
+			op := allOps[r.Intn(len(allOps))]
+			cs := calls(path, []string{op}, true)
+			b.Hist = append(b.Hist, cs[r.Intn(len(cs))])
+		}
+		bb, _ := json.Marshal(b)
+		out.Write(bb)
+		out.WriteByte('\n')
+	}
+}
+
+// ---------------------------------------------------------------- replay
+func applyMod(md jl.Node) func(any) (any, bool) {
+	switch md["m"] {
+	case "const":
+		v, _ := jl.Build("simple", jl.Norm(md["v"]))
+		return func(any) (any, bool) { return v, true }
+	case "wrap":
+		return func(e any) (any, bool) { return []any{e}, true }
+	}
+	return func(e any) (any, bool) { return e, false }
+}
+
+// apply runs one call on data (simple or gen) and returns the root afterwards.
+func apply(c Call, data any, flavour string) (root any, r string, msg string) {
+	root = data
+	r = "ok"
+	defer func() {
+		if rec := recover(); rec != nil {
+			r, msg = "panic", fmt.Sprintf("%T: %v", rec, rec)
+			if len(msg) > 160 {
+				msg = msg[:160]
+			}
+		}
+	}()
+	x := jl.Expr(c.Path)
+	var err error
+	var val any
+	if c.V != nil {
+		val, _ = jl.Build("simple", jl.Norm(c.V)) // Set on gen data takes simple values too (alt.Generify inside)
+	}
+	switch c.Op {
+	case "Set":
+		err = x.Set(data, val)
+	case "SetOne":
+		err = x.SetOne(data, val)
+	case "Del":
+		err = x.Del(data)
+	case "DelOne":
+		err = x.DelOne(data)
+	case "Remove":
+		root, err = x.Remove(data)
+	case "RemoveOne":
+		root, err = x.RemoveOne(data)
+	case "Modify":
+		root, err = x.Modify(data, genMod(applyMod(c.Md), flavour))
+	case "ModifyOne":
+		root, err = x.ModifyOne(data, genMod(applyMod(c.Md), flavour))
+	}
+	if err != nil {
+		r, msg = "err", err.Error()
+		if len(msg) > 160 {
+			msg = msg[:160]
+		}
+		if root == nil {
+			root = data
+		}
+	}
+	return
+}
+
+// genMod makes the modifier return gen nodes on gen data.
+func genMod(f func(any) (any, bool), flavour string) func(any) (any, bool) {
+	if flavour != "gen" {
+		return f
+	}
+	return func(e any) (any, bool) {
+		v, ch := f(e)
+		if !ch {
+			return v, ch
+		}
+		g, _ := jl.Build("gen", jl.Project(v))
+		return g, true
+	}
+}
+
+func runBeh(b *Beh) []stepLine {
+	lines := []stepLine{}
+	flavours := []string{"simple", "gen"}
+	datas := make([]any, len(flavours))
+	for i, fl := range flavours {
+		datas[i], _ = jl.Build(fl, b.Init)
+	}
+	maxLen := 8
+	for k, c := range b.Hist {
+		for _, f := range c.Path {
+			if f["f"] == "slice" {
+				f["pr"] = jl.Probe(f, maxLen)
+			}
+		}
+		ps := ""
+		func() {
+			defer func() { recover() }()
+			ps = jl.Expr(c.Path).String()
+		}()
+		ln := stepLine{B: b.ID, K: k + 1, Src: b.Src, Fx: b.Fx, M: c, PS: ps}
+		for i, fl := range flavours {
+			before := jl.Project(datas[i])
+			root, r, msg := apply(c, datas[i], fl)
+			datas[i] = root
+			if c.V != nil && (jl.IsArr(c.V) || jl.IsObj(c.V)) {
+				// Set stores the one container value at every selected location; rebuild the document so that this
+				// sharing (ordinary Go aliasing, not a property of the path code) does not leak into the next call
+				datas[i], _ = jl.Build(fl, jl.Project(root))
+			}
+			o := stepObs{As: []string{fl}, Before: before, R: r, After: jl.Project(root), Msg: msg}
+			merged := false
+			for j := range ln.O {
+				if ln.O[j].R == o.R && jsonEq(ln.O[j].Before, o.Before) && jsonEq(ln.O[j].After, o.After) {
+					ln.O[j].As = append(ln.O[j].As, fl)
+					merged = true
+				}
+			}
+			if !merged {
+				ln.O = append(ln.O, o)
+			}
+		}
+		lines = append(lines, ln)
+	}
+	return lines
+}
+
+func jsonEq(a, b any) bool {
+	x, _ := json.Marshal(a)
+	y, _ := json.Marshal(b)
+	return string(x) == string(y)
+}
+
+func mutExec(args []string) {
+	parallel(os.Stdin, os.Stdout, func(line []byte) []byte {
+		var b Beh
+		if err := json.Unmarshal(line, &b); err != nil {
+			panic(err)
+		}
+		b.Init = jl.Norm(b.Init)
+		for i := range b.Hist {
+			if b.Hist[i].V != nil {
+				b.Hist[i].V = jl.Norm(b.Hist[i].V)
+			}
+		}
+		var out []byte
+		for i, ln := range runBeh(&b) {
+			bb, err := json.Marshal(ln)
+			if err != nil {
+				panic(err)
+			}
+			if i > 0 {
+				out = append(out, '\n')
+			}
+			out = append(out, bb...)
+		}
+		return out
+	})
+}
+
+var _ = jp.X
